@@ -310,6 +310,28 @@ func (w *World) Do(c Call) error {
 			delete(w.hinfo, c.Q[0])
 		}
 		return err
+	case "Restart":
+		// the process ends without closing anything (buffered handle writes are lost) and a new one is
+		// constructed over the same tape: K=1 with the index left behind, K=0 without an index (Initialize rebuilds it)
+		old := *w.Inst
+		w.handles, w.hinfo = map[string]afero.File{}, map[string]*HInfo{}
+		old.Close()
+		if c.K == 0 {
+			for _, suffix := range []string{"", "-wal", "-shm", "-journal"} {
+				_ = os.Remove(old.DB + suffix)
+			}
+		}
+		cfg := old.Cfg
+		cfg.Overwrite = false
+		ni, err := sut.OpenPaths(old.Drive, old.DB, old.Dir, cfg, old.Keys, nil)
+		if err != nil {
+			return err
+		}
+		root, ierr := ni.FS.Initialize("/", os.ModePerm)
+		ni.Root, ni.InitErr = root, ierr
+		*w.Inst = *ni
+		w.FS = w.Inst.FS
+		return ierr
 	case "Initialize":
 		root, err := w.Inst.FS.Initialize("/", os.ModePerm)
 		w.Inst.Root, w.Inst.InitErr = root, err
